@@ -704,4 +704,11 @@ theorem HierOK.nonredundant {top : Id} {hier : AL (List Id)} (h : HierOK top hie
       rw [anc_cons_ne hqk]
       exact ih hp hq
 
+theorem any_mem_comm (A B : List Id) :
+    A.any (fun x => decide (x ∈ B)) = B.any (fun x => decide (x ∈ A)) := by
+  rw [Bool.eq_iff_iff]
+  simp only [List.any_eq_true, decide_eq_true_eq]
+  constructor <;> rintro ⟨x, h1, h2⟩ <;> exact ⟨x, h2, h1⟩
+
+
 end Verif.C17
